@@ -73,7 +73,10 @@ def get_mapper(field_cls):
 
 
 def _map_class_reference(reference, definitions_schema):
-    definition, _ = structure_to_schema(getattr(reference, "_ty"), definitions_schema)
+    # a nested structure is always serialized as an object: no "field wrapper" form here
+    definition, _ = structure_to_schema(
+        getattr(reference, "_ty"), definitions_schema, allow_field_wrapper=False
+    )
     name = getattr(reference, "_ty").__name__
     definitions_schema[name] = definition
     return {"$ref": f"#/definitions/{name}"}
@@ -128,7 +131,9 @@ def _validated_mapped_value(mapper, key):
     return None
 
 
-def structure_to_schema(structure, definitions_schema, serialization_mapper=None):
+def structure_to_schema(
+    structure, definitions_schema, serialization_mapper=None, allow_field_wrapper=True
+):
     """
     Generate JSON schema from :class:`Structure`
     `See working examples in tests. <https://github.com/loyada/typedpy/tree/master/tests/schema_mapping>`_
@@ -164,7 +169,8 @@ def structure_to_schema(structure, definitions_schema, serialization_mapper=None
             " will have to edit it manually."
         )
     if (
-        len(field_by_name) == 1
+        allow_field_wrapper
+        and len(field_by_name) == 1
         and set(required) == set(field_by_name.keys())
         and additional_props is False
     ):
@@ -473,7 +479,10 @@ class StructureReferenceMapper(Mapper):
 
     def to_schema(self, definitions, serialization_mapper):
         schema, _ = structure_to_schema(
-            getattr(self.value, "_newclass"), definitions, serialization_mapper
+            getattr(self.value, "_newclass"),
+            definitions,
+            serialization_mapper,
+            allow_field_wrapper=False,
         )
         schema["type"] = "object"
         return schema
